@@ -13,9 +13,9 @@ META = dict(
                '+ differential correspondence (model output must equal pg.to_html_str character by character, content and whole document) + sentinel oracle on the real output'),
     design_ref='DESIGN.md §5 C20',
     level_text=('Theorems: escape never emits < > " \' and every & it emits starts one of five entities; unescape inverts escape; every tree built from element/text nodes and constant style blocks '
-                'renders to a string the strict parser reads back as exactly that tree (well nested, closed, at any depth); for every value and option record (25 options: 15 plain ones, highlight/lowlight, the callable forms of key_style / include_keys / exclude_keys / uncollapse / key_color as arbitrary result tables, extra_flags) the tree view, and the whole '
+                'renders to a string the strict parser reads back as exactly that tree (well nested, closed, at any depth); for every value and option record (26 options: 15 plain ones, title, highlight/lowlight, the callable forms of key_style / include_keys / exclude_keys / uncollapse / key_color as arbitrary result tables, extra_flags) the tree view, and the whole '
                 '<html><head><style>..</style></head><body>..</body></html> document, render to a string that parses to elements/options/attributes of a fixed vocabulary only, whatever strings the value carries; '
-                'every included key and every leaf is a text node (also of the parsed output); no text of the value is in the head; the head is the same for values of the same shape. '
+                'escape is blind (fixpoint iff no special character; twice = once only when nothing to escape) and applied exactly once on every data path (texts and attribute values of the parsed output are the data placed); every included key and every leaf is a text node (also of the parsed output); no text of the value is in the head; the head is the same for values of the same shape. '
                 'Controls (Label, Badge, Tooltip, LabelGroup, ProgressBar, TabControl) are hnode builders with the same well-formedness / no-injection theorems; the JavaScript literal written by Html.escape(s, javascript_str=True) '
                 'is lexed back as exactly s and ends at its closing quote (update scripts for textContent / innerHTML). '
                 'Tie: the model is run on every generated (options, value) and its output compared, character by character, with pg.to_html_str(value, **options) both with content_only=True and as the full document; '
@@ -23,7 +23,7 @@ META = dict(
                 'the Python strict tokenizer used by the oracle is compared with the proved Coq parser on real, broken and mutated outputs; html.escape is compared with the model escape.'),
     level_note=('Trusted: Coq kernel; translator harness/translators/html_styles.py; extraction (ExtrOcamlBasic) cross-checked against vm_compute; the harness conversion of a Python value to the model value, which calls '
                 'utils.format / repr / camel_to_snake to fill the strings the model treats as arbitrary (fmt, rep, cname). Modelled, not verified: those three functions (arbitrary strings in every theorem). '
-                'Python repr of Latin-1 strings is computed by the model (py_repr), other reprs / tooltips are carried. Covered by the oracle only: title, debug, child_config, pg.Ref / pg.Diff values, markup (Html) texts of controls; see coverage.options_oracle_only. '
+                'Python repr of Latin-1 strings, ints, bools, None and the string tooltips are computed by the model; reprs of floats / opaque objects and container tooltips are carried. Covered by the oracle only: debug, child_config, pg.Ref / pg.Diff values; see coverage.options_oracle_only. Html-typed control texts: theorem hypothesis markup_ok. '
                 'Trusted option strings of controls (id, css_classes, styles, link, target) are compared on metacharacter-free values; inside onclick the raw apostrophes of the code are compared as &#x27;.'),
     rule=('a case is (value, options) [or a control, a document for the tokenizer, a string for escape]; distinct by (generator seeds / literal, options); non-trivial when the value carries at least one string/key/class name with an HTML metacharacter'),
     trusted_base=['translator harness/translators/html_styles.py (fail-closed ast reader: CSS literals of HtmlTreeView, shapes of Html.to_str / head_section / style_section / script_section / body_section / Styles.content)',
@@ -833,7 +833,7 @@ def py_normalize(ts):
 # ------------------------------------------------------------------------------------------------
 # HTML controls (views/html/controls): oracle only.  Data: label text, tooltip text, sub-progress names, tab labels and the
 # values shown in tab contents.  Trusted (benign in the cases): id, css_classes, styles, link, target, for_element.
-CONTROL_KINDS = ['label', 'label+tooltip', 'badge', 'label-link', 'label-group', 'tooltip', 'tabs', 'progress']
+CONTROL_KINDS = ['label', 'label+tooltip', 'badge', 'label-link', 'label-group', 'tooltip', 'tabs', 'progress', 'label-markup', 'tooltip-markup']
 CTRL_TAGS = VOCAB_TAGS | {'a', 'button'}
 CTRL_ATTRS = VOCAB_ATTRS | {'id', 'href', 'target', 'onclick'}
 
@@ -852,6 +852,11 @@ def build_control(spec):
   elif k == 'label-link': ctl = c.Label(text('label-text'), link='https://example.com/a?b=1', target='_blank')
   elif k == 'label-group': ctl = c.LabelGroup([c.Label(text('label-text')), c.Badge(text('label-text'), tooltip=text('tooltip-text'))], name=c.Label(text('label-text')))
   elif k == 'tooltip': ctl = c.Tooltip(text('tooltip-text'), for_element='.some-element')
+  elif k == 'label-markup':      # the text is an Html object: application markup around escaped data
+    ctl = c.Label(p.Html.element('span', [p.Html.escape(text('label-text')), p.Html.element('div', [p.Html.escape(text('label-text'))], css_classes=['inner'])]) + p.Html.escape(text('label-text')),
+                  tooltip=c.Tooltip(text('tooltip-text')) if r.random() < 0.5 else None)
+  elif k == 'tooltip-markup':
+    ctl = c.Tooltip(p.Html.element('div', [p.Html.escape(text('tooltip-text'))], css_classes=['rich']), for_element='.some-element')
   elif k == 'tabs':
     tabs = []
     for i in range(r.randint(1, 3)):
@@ -937,15 +942,22 @@ def conv_common(ctl, id_, styles=None):
   st = ctl.styles if styles is None else styles
   return [trlib.opt(id_), [trlib.enc(x) for x in ctl.css_classes], [[trlib.enc(k.replace('_', '-')), trlib.enc(str(v))] for k, v in st.items() if v is not None]]
 
+def markup_trees(html):
+  """The trees of an Html object's content (application markup), or NotModelled when the strict grammar does not cover it."""
+  t = strict_parse_opt(html.content)
+  if t is None or any(x[0] == 3 for x in walk(t)):
+    raise NotModelled('markup outside the strict grammar')
+  return [enc_tree(x) for x in t]
+
 def conv_label(l):
-  if not isinstance(l.text, str):
-    raise NotModelled('markup text')
+  markup = None if isinstance(l.text, str) else markup_trees(l.text)
   tip = None
   if l.tooltip is not None:
     if not isinstance(l.tooltip.content, str):
       raise NotModelled('markup tooltip')
     tip = [conv_common(l.tooltip, l.tooltip.element_id()), trlib.enc(l.tooltip.content)]
-  return [conv_common(l, l.element_id()), trlib.opt(l.link), trlib.opt(l.target), trlib.enc(l.text), [] if tip is None else [tip]]
+  return [conv_common(l, l.element_id()), trlib.opt(l.link), trlib.opt(l.target), trlib.enc(l.text if markup is None else ''), [] if tip is None else [tip],
+          [] if markup is None else [markup]]
 
 def conv_control(ctl):
   from pyglove.core.views.html import controls as c
@@ -954,7 +966,8 @@ def conv_control(ctl):
   if isinstance(ctl, c.Label):
     return [0, conv_label(ctl)]
   if isinstance(ctl, c.Tooltip):
-    if not isinstance(ctl.content, str): raise NotModelled('markup tooltip')
+    if not isinstance(ctl.content, str):
+      return [5, conv_common(ctl, ctl.element_id()), markup_trees(ctl.content)]
     return [1, conv_common(ctl, ctl.element_id()), trlib.enc(ctl.content)]
   if isinstance(ctl, c.LabelGroup):
     return [2, conv_common(ctl, ctl.id or None), [] if ctl.name is None else [conv_label(ctl.name)], [conv_label(l) for l in ctl.labels]]
